@@ -126,7 +126,7 @@ struct Run {
 	std::unordered_map<uint64_t, int> sched_map;
 	std::unordered_map<uint64_t, int64_t> fault_map;
 	std::vector<uint64_t> change_pts; size_t next_cp = 0; int low_prio = 0;
-	int stall_task = 0; uint64_t stall_from = 0, stall_to = 0; bool stall_counted = false;
+	int stall_task = 0; uint64_t stall_from = 0, stall_to = 0; bool stall_counted = false, stall_hold = false;
 	std::map<uint64_t, Loc> locs;
 	VC sc_clock;
 	size_t obj_top = 0;
@@ -270,6 +270,9 @@ static int decide(bool forced, int kind) {
 		case S_RAND:
 		case S_STALL: {
 			bool sw = forced || kind == K_YIELD || r.rng.below((uint64_t)p.strat_arg) == 0;
+			// long stall (knob stall_hold): the victim is taken off the CPU at stall_from and stays off until the engine calls
+			// stall_release() — or nothing else can run —, however many operations the others do meanwhile
+			if (!sw && r.stall_hold && r.cur == r.stall_task && r.steps >= r.stall_from && r.steps < r.stall_to && count_enabled() > 1) sw = true;
 			if (sw) {
 				int n = count_enabled();
 				next = nth_enabled((int)r.rng.below(n));
@@ -356,6 +359,7 @@ static inline void sched_point(int kind) {
 }
 
 void sync_hook() { if (R && R->active) sched_point(K_SYNC); }
+void stall_release() { if (R && R->active && R->stall_hold) R->stall_to = R->steps; }
 void yield() {
 	if (!R || !R->active || R->cur == 0) return;
 	R->res.fired[FK_YIELD]++;
@@ -972,6 +976,7 @@ RunResult execute(Engine *e, const Plan &p) {
 	init_memory();
 	install_handlers();
 	static Run *run_storage = nullptr;
+	R = nullptr; // (a signal between the delete and the assignment below must not see the old object)
 	delete run_storage;
 	run_storage = new Run();
 	R = run_storage;
@@ -1010,6 +1015,7 @@ RunResult execute(Engine *e, const Plan &p) {
 			r.stall_task = 1 + (int)r.rng.below(p.ntasks);
 			uint64_t K = (uint64_t)(nops + 1) * 40;
 			r.stall_from = r.rng.below(K); r.stall_to = r.stall_from + 50 + r.rng.below(K);
+			if (p.knob("stall_hold", 0)) { r.stall_hold = true; r.stall_task = (int)p.knob("stall_task", 1); r.stall_from = (uint64_t)p.knob("stall_from", 0); r.stall_to = UINT64_MAX; }
 		}
 	}
 	// prepare() runs code under test outside a run (calibration): a panic or crash there must not kill the worker
